@@ -68,7 +68,7 @@ def run(chk):
     # -- EMA helper: the module-level function whose result is stored into module.<x>_scale
     ema_calls = []
     for fn in (pre, post):
-        for p in paths_of(fn, inline_helpers="methods"):
+        for p in paths_of(_with_boolean_helpers(fn), inline_helpers="methods"):
             for ef in p.effects:
                 if ef[0] == "store" and ef[2] in ("input_scale", "output_scale") and isinstance(_val(ef[3]), ast.Call) and isinstance(_val(ef[3]).func, ast.Name):
                     r = repo.resolve(mi, _val(ef[3]).func.id)
@@ -177,6 +177,41 @@ def run(chk):
     chk.assume("torch calls global forward pre-hooks as hook(module, args) and forward hooks as hook(module, args, output)")
 
 
+_BOOL_FN: dict = {}
+
+
+def _with_boolean_helpers(fn):
+    """`fn` with the calls to module-level helpers that return a truth value (a guard moved into `_quantizes_activations(module)`) replaced
+    by their expression; helpers that compute scales stay calls (the rules look for them)."""
+    from ..core import _CLASS_OF, _MODULE_OF, inline_predicates, module_lookup
+    if id(fn) in _BOOL_FN:
+        return _BOOL_FN[id(fn)]
+
+    def boolean(e):
+        if isinstance(e, ast.BoolOp):
+            return all(boolean(v) for v in e.values)
+        if isinstance(e, ast.UnaryOp) and isinstance(e.op, ast.Not):
+            return True
+        if isinstance(e, ast.Compare):
+            return True
+        if isinstance(e, ast.Constant) and isinstance(e.value, bool):
+            return True
+        return isinstance(e, ast.Call) and U(e.func) in ("isinstance", "issubclass", "hasattr", "callable", "bool")
+
+    def lookup(name):
+        h = module_lookup(fn, name)
+        if isinstance(h, ast.FunctionDef) and all(r.value is not None and boolean(r.value) for r in ast.walk(h) if isinstance(r, ast.Return)):
+            return h
+        return None
+
+    inl = inline_predicates(fn, lookup)
+    for reg in (_MODULE_OF, _CLASS_OF):
+        if id(fn) in reg:
+            reg[id(inl)] = reg[id(fn)]
+    _BOOL_FN[id(fn)] = inl
+    return inl
+
+
 def guard_facts(p):
     f = {}
     for c, t, _ in p.conds:
@@ -196,7 +231,7 @@ def _val(e):
 def hook_paths(chk, repo, mi, fn, buf, rule):
     qn = f"Calibration.{fn.name}"
     n_store = 0
-    for p in paths_of(fn, inline_helpers="methods"):
+    for p in paths_of(_with_boolean_helpers(fn), inline_helpers="methods"):
         f = guard_facts(p)
         guarded = any(f.get(g) is True for g in ("isinstance(module, QModuleMixin)", "isinstance(module, (QModuleMixin,))")) and f.get("module.activation_qtype is None") is False
         for ef in p.effects:
